@@ -214,6 +214,22 @@ theorem eos_manager_refines_source (c : Cfg) (s : St) (i : Nat) (f : FCfg) (hk :
    RulesGen.eos_closed_long_enough_refines s i f, RulesGen.repulse_on_eos_open_refines c s i f hk hen hm,
    RulesGen.stop_refines s i f⟩
 
+/-- **autofire_refines_source**: `AutofireCoil.enable` and `AutofireCoil.disable` as *translated from the source*
+(`Gen/RulesOps.lean`, regenerated on every check) do to the model state exactly what the hand model's `enableDev` /
+`disableDev` do for an autofire coil or kickback whose rule the platform accepts: `enable` of an enabled device does nothing;
+otherwise exactly one row is written - by the plain rule setter when `coil_pulse_delay` is 0, by the delayed one otherwise -
+whose settings are the ones `autofireEntry` selects (recycle: `coil_overwrite` first, else the coil's default with None read
+as True; debounce: `switch_overwrite` first, else the switch's own, "normal" only; invert: `reverse_switch`; pulse ms / power
+from `coil_overwrite`), and only then `_enabled` is set; `disable` always removes the re-enable delay and clears the rule iff
+the device was enabled.  So `rules_exact` / `rule_content_exact` speak about the source's enable/disable: a
+change such as `default_recycle in (True,)`, taking the switch's debounce before the overwrite, or clearing the rule without
+resetting `_enabled` no longer type-checks here. -/
+theorem autofire_refines_source (c : Cfg) (s : St) (i : Nat) (a : ACfg) (hk : (c.dev i).kind = .autofire a) :
+    (installable (c.dev i) = true →
+      RulesGen.applyAf (c.dev i) a i s (RulesGen.genAf a (s.devs i) Gen.RulesOps.af_enable) = some (enableDev c s i)) ∧
+    RulesGen.applyAf (c.dev i) a i s (RulesGen.genAf a (s.devs i) Gen.RulesOps.af_disable) = some (disableDev c s i) :=
+  ⟨RulesGen.af_enable_refines c s i a hk, RulesGen.af_disable_refines c s i a hk⟩
+
 /-! ## the hypotheses are satisfiable: a dual-wound flipper with EOS switch and software repulse, an autofire with
 timeout protection and a kickback that disables itself on its fired event -/
 
@@ -234,6 +250,15 @@ example : ((run exCfg init [.ev 0, .hit 1, .hit 1, .hit 2, .ev 1, .advance 500])
 example : enables exCfg 1 (.advance 500) = false ∧ enables exCfg 1 (.hit 2) = false := by decide
 /-- software flip energises the hold coil of the dual-wound flipper; ball_will_end releases it -/
 example : (run exCfg init [.ev 0, .swFlip 0]).on = [1] ∧ (run exCfg init [.ev 0, .swFlip 0, .ev 1]).on = [] := by decide +kernel
+
+/-- `autofire_refines_source` is not vacuous: device 1 of `exCfg` is an autofire coil whose rule is accepted, and running the
+translated `enable` on the initial state writes its row (key (2, 2)) and sets `enabled` -/
+example : (exCfg.dev 1).kind = .autofire { sw := 2, coil := 2, watch := 1000, maxHits := 2, disableMs := 500 } ∧
+    installable (exCfg.dev 1) = true := ⟨rfl, by decide⟩
+example : ((RulesGen.applyAf (exCfg.dev 1) { sw := 2, coil := 2, watch := 1000, maxHits := 2, disableMs := 500 } 1 init
+      (RulesGen.genAf { sw := 2, coil := 2, watch := 1000, maxHits := 2, disableMs := 500 } (init.devs 1)
+        Gen.RulesOps.af_enable)).map (fun s => (s.table.map Entry.key, (s.devs 1).enabled))) = some ([(2, 2)], true) := by
+  decide +kernel
 
 /-! ### software EOS repulse: the coil a repulse enabled stays owed to the flipper when the EOS closes again, and is released
 when the flipper is disabled (the round-8 seeded change cleared the flag on the second closure) -/
